@@ -5,15 +5,34 @@ package main
 
 import (
 	"fmt"
+	"math/rand"
 
 	didtypes "github.com/SaoNetwork/sao/x/did/types"
+	saotypes "github.com/SaoNetwork/sao/x/sao/types"
+	sdk "github.com/cosmos/cosmos-sdk/types"
 )
 
 type scenarioFn func(r *Recorder, accts []*Account)
 
-var scenarios = map[string]scenarioFn{
-	"d17-unrelated-proof": scenarioD17,
-	"d6-binding-edge":     scenarioD6,
+// a scenario may adjust the genesis (node parameters, validators) before the chain starts
+type scenario struct {
+	run     scenarioFn
+	genesis func(spec *GenesisSpec)
+}
+
+var scenarios = map[string]scenario{
+	"d17-unrelated-proof": {run: scenarioD17},
+	"d6-binding-edge":     {run: scenarioD6},
+	"d10-residue":         {run: scenarioD10, genesis: func(g *GenesisSpec) { g.NodeParams.VstorageThreshold = 5000000 }},
+	"d13-debt-from-income": {run: scenarioD13, genesis: func(g *GenesisSpec) { g.NodeParams.BlockReward = sdk.NewInt64Coin(Denom, 0) }},
+	"d15-timeout":         {run: scenarioD15},
+	"d16-base-prefix":     {run: scenarioD16},
+	"d18-genesis":         {run: scenarioD18},
+	"d19-block-reward":    {run: scenarioD19, genesis: func(g *GenesisSpec) { g.NodeParams.BlockReward = sdk.NewInt64Coin(Denom, 360000000000000); g.NodeParams.Baseline = sdk.NewInt64Coin(Denom, 1) }},
+	"d20-renew-payer":     {run: scenarioD20},
+	"d22-force-push-expiry": {run: scenarioD22},
+	"d11-terminate-renewed": {run: scenarioD11},
+	"d23-renew-during-migration": {run: scenarioD23},
 }
 
 // D17: a signature the victim once produced over an unrelated text is accepted as the
@@ -53,5 +72,243 @@ func scenarioD6(r *Recorder, accts []*Account) {
 		AccountAuth: &didtypes.AccountAuth{AccountDid: "did:key:d6acc", AccountEncryptedSeed: "s", SidEncryptedAccount: "e"},
 		Proof:       &didtypes.BindingProof{Version: 1, Message: message, Signature: CosmosProofSig(a, a.Bech(), message), Account: accountIdOf(a), Did: did, Timestamp: ts}}
 	r.Binding(a, msg)
+	r.EndBlock()
+}
+
+// ---- shared setup for storage scenarios: gateway accts[0], providers accts[1..3], owners on accts[4..6]
+type miniWorld struct {
+	r         *Recorder
+	gw        *Account
+	providers []*Account
+	owners    []*owner
+	w         *saoWorld
+}
+
+func newMiniWorld(r *Recorder, accts []*Account, nProviders int) *miniWorld {
+	w := &saoWorld{rng: rand.New(rand.NewSource(7)), r: r, c: r.c, grants: map[string]*owner{}}
+	m := &miniWorld{r: r, gw: accts[0], w: w}
+	r.BeginBlock()
+	r.NodeCreate(m.gw)
+	r.NodeReset(m.gw, "", 3, "", nil)
+	for i := 0; i < nProviders; i++ {
+		p := accts[1+i]
+		m.providers = append(m.providers, p)
+		r.NodeCreate(p)
+		r.NodeReset(p, "", 13, "", nil)
+		r.AddVstorage(p, 100000000)
+	}
+	for i := 0; i < 3; i++ {
+		m.owners = append(m.owners, w.mkKeyOwner(accts[4+i], fmt.Sprintf("sc%d", i)))
+	}
+	w.gateways = []*Account{m.gw}
+	w.providers = m.providers
+	w.owners = m.owners
+	w.gwTx = map[string]*Account{}
+	r.EndBlock()
+	return m
+}
+
+func (m *miniWorld) store(o *owner, dataId, commitId string, op uint32, size uint64, replica int32, duration uint64, timeout int32) TxResult {
+	p := m.w.proposal(o, m.gw, dataId, commitId, op, size, replica, duration, timeout)
+	return m.r.Store(m.gw, &saotypes.MsgStore{Creator: m.gw.Bech(), Proposal: p, JwsSignature: SignJWS(&p, o.key, o.kid), Provider: m.gw.Bech()})
+}
+
+// completeAll: every provider holding a waiting / migrating shard completes it
+func (m *miniWorld) completeAll() {
+	for _, sh := range m.w.ctxShards() {
+		if sh.Status != 0 && sh.Status != 4 {
+			continue
+		}
+		sp := m.w.acctByAddr(sh.Sp)
+		var oid uint64 = sh.OrderId
+		for _, o := range m.w.ctxOrders() {
+			for _, id := range o.Shards {
+				if id == sh.Id {
+					oid = o.Id
+				}
+			}
+		}
+		if sp != nil {
+			m.r.Complete(sp, sp.Bech(), oid, goodCid2, sh.Size_)
+		}
+	}
+}
+
+func (m *miniWorld) renew(o *owner, dataId string, duration uint64) TxResult {
+	p := saotypes.RenewProposal{Owner: o.did, Duration: duration, Timeout: 10, Data: []string{dataId}}
+	return m.r.Renew(m.gw, &saotypes.MsgRenew{Creator: m.gw.Bech(), Proposal: p, JwsSignature: SignJWS(&p, o.key, o.kid), Provider: m.gw.Bech()})
+}
+
+const dataA = "aaaaaaaa-data-4000-8000-00000000000a"
+
+// D10: a delegation that fails after the first staking hook leaves the delegator's shares in a
+// process-level variable; the next fresh delegation by a third party then promotes a node that
+// holds 9.9 % of the validator's shares.
+func scenarioD10(r *Recorder, accts []*Account) {
+	c := r.c
+	val := c.ValAddrs[0]
+	op := c.Accounts["val0"]
+	n, third := accts[0], accts[1]
+	r.BeginBlock()
+	r.NodeCreate(n)
+	r.AddVstorage(n, 6000000)
+	r.Delegate(n, val, 110000) // 110000 of 1110000 shares = 9.9 %
+	r.NodeReset(n, "", 15, val.String(), nil)
+	r.EndBlockStaking()
+	r.BeginBlock()
+	bal := c.App.BankKeeper.GetBalance(c.deliverCtx(), op.Addr, Denom).Amount.Int64()
+	r.Delegate(op, val, bal+1000) // fails at the bank transfer, after BeforeDelegationSharesModified
+	r.EndBlockStaking()
+	r.BeginBlock()
+	r.Delegate(third, val, 1000)
+	r.EndBlockStaking()
+	node, _ := c.App.NodeKeeper.GetNode(c.deliverCtx(), n.Bech())
+	r.Note(fmt.Sprintf("node role after the third party's delegation: %d", node.Role))
+}
+
+// D13: a provider without funds renews (debt recorded), the debt is later repaid out of storage
+// income that stays in the market escrow, so the node escrow no longer covers the collateral.
+func scenarioD13(r *Recorder, accts []*Account) {
+	m := newMiniWorld(r, accts, 1)
+	p := m.providers[0]
+	o := m.owners[0]
+	r.BeginBlock()
+	m.store(o, dataA, dataA, 1, 1000000, 1, 3600, 100)
+	m.completeAll()
+	// the provider empties its account
+	bal := r.c.App.BankKeeper.GetBalance(r.c.deliverCtx(), p.Addr, Denom).Amount.Int64()
+	r.Send(p, accts[8], bal)
+	m.renew(o, dataA, 7200)
+	r.EndBlock()
+	r.Blocks(600)
+	r.BeginBlock()
+	r.ClaimReward(p)
+	r.EndBlock()
+}
+
+// D15: a negative timeout is stored as 2^64-1 and scheduled in the past; a timeout longer than
+// the remaining lifetime stops the checks. Both orders stay unresolved.
+func scenarioD15(r *Recorder, accts []*Account) {
+	m := newMiniWorld(r, accts, 2)
+	o := m.owners[0]
+	r.BeginBlock()
+	m.store(o, dataA, dataA, 1, 1000000, 1, 3600, -1)
+	r.EndBlock()
+	r.Blocks(3)
+}
+
+// D16: the base version of an update is checked with strings.Contains: a one-character base passes.
+func scenarioD16(r *Recorder, accts []*Account) {
+	m := newMiniWorld(r, accts, 1)
+	o := m.owners[0]
+	r.BeginBlock()
+	m.store(o, dataA, dataA, 1, 1000000, 1, 3600, 100)
+	m.completeAll()
+	r.EndBlock()
+	r.BeginBlock()
+	m.store(o, dataA, "a|bbbbbbbb-comm-4000-8000-00000000000b", 1, 1000000, 1, 3600, 100)
+	r.EndBlock()
+}
+
+// D18: the round-robin cursor (and the fault / fishing tables) have no genesis field.
+func scenarioD18(r *Recorder, accts []*Account) {
+	m := newMiniWorld(r, accts, 1)
+	r.BeginBlock()
+	m.store(m.owners[0], dataA, dataA, 1, 1000000, 1, 3600, 100)
+	r.EndBlock()
+	r.ExportImport()
+}
+
+// D19: BlockReward = 3.6e14 passes Params.Validate; the third minted block exceeds the total
+// reward and BeginBlock panics.
+func scenarioD19(r *Recorder, accts []*Account) {
+	r.BeginBlock()
+	r.NodeCreate(accts[0])
+	r.AddVstorage(accts[0], 5000000)
+	r.EndBlock()
+	r.Blocks(5)
+}
+
+// D20: after a read-write grantee's update, the owner's renewal is charged to the grantee.
+func scenarioD20(r *Recorder, accts []*Account) {
+	m := newMiniWorld(r, accts, 1)
+	o, g := m.owners[0], m.owners[1]
+	r.BeginBlock()
+	m.store(o, dataA, dataA, 1, 1000000, 1, 3600, 100)
+	m.completeAll()
+	p := saotypes.PermissionProposal{Owner: o.did, DataId: dataA, ReadwriteDids: []string{g.did}}
+	r.UpdatePermission(m.gw, &saotypes.MsgUpdataPermission{Creator: m.gw.Bech(), Proposal: p, JwsSignature: SignJWS(&p, o.key, o.kid), Provider: m.gw.Bech()})
+	r.EndBlock()
+	r.BeginBlock()
+	m.store(g, dataA, dataA+"|bbbbbbbb-comm-4000-8000-00000000000b", 1, 1000000, 1, 3600, 100)
+	m.completeAll()
+	r.EndBlock()
+	r.BeginBlock()
+	m.renew(o, dataA, 3600)
+	r.EndBlock()
+}
+
+// D22: after a force-push the model's expiry entry is at height 0: it outlives its shards.
+func scenarioD22(r *Recorder, accts []*Account) {
+	m := newMiniWorld(r, accts, 1)
+	o := m.owners[0]
+	r.BeginBlock()
+	m.store(o, dataA, dataA, 1, 1000000, 1, 3600, 100)
+	m.completeAll()
+	r.EndBlock()
+	r.BeginBlock()
+	m.store(o, dataA, dataA+"|bbbbbbbb-comm-4000-8000-00000000000b", 2, 1000000, 1, 3600, 100)
+	m.completeAll()
+	r.EndBlock()
+}
+
+// D11: terminating a model whose renewal has not started leaves the renewal's price in the market escrow.
+func scenarioD11(r *Recorder, accts []*Account) {
+	m := newMiniWorld(r, accts, 1)
+	o := m.owners[0]
+	r.BeginBlock()
+	m.store(o, dataA, dataA, 1, 1000000, 1, 3600, 100)
+	m.completeAll()
+	m.renew(o, dataA, 3600)
+	r.EndBlock()
+	r.BeginBlock()
+	p := saotypes.TerminateProposal{Owner: o.did, DataId: dataA}
+	r.Terminate(m.gw, &saotypes.MsgTerminate{Creator: m.gw.Bech(), Proposal: p, JwsSignature: SignJWS(&p, o.key, o.kid), Provider: m.gw.Bech()})
+	r.EndBlock()
+}
+
+// D23: a renewal placed while a shard is being migrated copies the migrating shard into the
+// renewal order's list; completing the migration then lists the new shard twice in the
+// original order, and terminating the model releases its collateral and capacity twice.
+func scenarioD23(r *Recorder, accts []*Account) {
+	m := newMiniWorld(r, accts, 2)
+	o := m.owners[0]
+	r.BeginBlock()
+	m.store(o, dataA, dataA, 1, 1000000, 1, 3600, 100)
+	m.completeAll()
+	// a second model on the same providers so that the double release does not underflow
+	dataB := "bbbbbbbb-data-4000-8000-00000000000b"
+	m.store(o, dataB, dataB, 1, 2000000, 2, 3600, 100)
+	m.completeAll()
+	r.EndBlock()
+	r.BeginBlock()
+	// the provider holding model A's shard hands it over
+	var holder *Account
+	for _, sh := range m.w.ctxShards() {
+		if sh.OrderId == 1 && sh.Status == 2 {
+			holder = m.w.acctByAddr(sh.Sp)
+		}
+	}
+	if holder != nil {
+		r.Migrate(holder, holder.Bech(), []string{dataA})
+	}
+	m.renew(o, dataA, 3600)
+	r.EndBlock()
+	r.BeginBlock()
+	m.completeAll() // the new provider completes the migration on the renewal order
+	r.EndBlock()
+	r.BeginBlock()
+	p := saotypes.TerminateProposal{Owner: o.did, DataId: dataA}
+	r.Terminate(m.gw, &saotypes.MsgTerminate{Creator: m.gw.Bech(), Proposal: p, JwsSignature: SignJWS(&p, o.key, o.kid), Provider: m.gw.Bech()})
 	r.EndBlock()
 }
